@@ -3,10 +3,12 @@ CONSTANTS
   MaxGroups = 1
   MaxObjects = 2
   MaxData = 1
+  MaxDrill = 0
   MaxPGs = 1
   ObjClasses = {"Points", "Curve", "Surface", "Grid2D"}
   Prims = {"float", "int"}
   ShareTypes = FALSE
+  UnnamedPGs = FALSE
   Deviations = {}
 INVARIANT TypeOK
 INVARIANT EveryItemClassified
